@@ -506,22 +506,33 @@ def evalFn (ev : Expr → M Expr) (self a : Expr) (args : Option (List Expr)) (a
   | none => pure self
   | some (f, merged) => applyFn ev f merged
 
+def codesOf (s : String) : List Nat := s.toList.map Char.toNat
+
+/-- `kg_asarray` of the results of Each: data and symbol values become the members of one list -/
 def litList : List Expr → Option (List Val)
   | [] => some []
   | .lit v :: r => (litList r).map (v :: ·)
+  | .sym s :: r => (litList r).map (.sym (codesOf s) :: ·)
   | _ :: _ => none
+
+/-- a member of a list handed to a function by an adverb or by `@`: it travels inside a `KGCall`
+    argument list and is therefore EVALUATED again by `_eval_fn` (`self.call(q)`) — a symbol member is
+    looked up as a variable (known finding `subst:symbol-member-defined`) -/
+def ofMember : Val → Expr
+  | .sym cs => .sym (nameOf cs)
+  | v => .lit v
 
 def evalEachLoop (ev : Expr → M Expr) (f : Expr) : List Val → M (List Expr)
   | [] => pure []
   | x :: xs => do
-    let u ← ev (.call f [.lit x] 1)
+    let u ← ev (.call f [ofMember x] 1)
     let r ← evalEachLoop ev f xs
     pure (u :: r)
 
 def evalOverLoop (ev : Expr → M Expr) (f : Expr) (acc : Expr) : List Val → M Expr
   | [] => pure acc
   | x :: xs => do
-    let acc' ← ev (.call f [acc, .lit x] 2)
+    let acc' ← ev (.call f [acc, ofMember x] 2)
     evalOverLoop ev f acc' xs
 
 /-- `[self.call(y) for y in x][-1]`; the empty list evaluates to itself -/
@@ -554,7 +565,7 @@ def step (ev : Expr → M Expr) (e : Expr) : M Expr :=
     if o == "@" then
       if isKGFn x || isLam x || (match x with | .sym _ => true | _ => false) then
         match y with
-        | .lit (.list ys) => ev (.call x (ys.map .lit) 1)
+        | .lit (.list ys) => ev (.call x (ys.map ofMember) 1)
         | _ => ev (.call x [y] 1)
       else raise .unmodelled
     else match x, y with
@@ -589,8 +600,8 @@ def step (ev : Expr → M Expr) (e : Expr) : M Expr :=
     let a ← ev arg
     match a with
     | .lit (.list []) => pure a
-    | .lit (.list [x]) => pure (.lit x)
-    | .lit (.list (x :: xs)) => evalOverLoop ev f (.lit x) xs
+    | .lit (.list [x]) => pure (ofMember x)
+    | .lit (.list (x :: xs)) => evalOverLoop ev f (ofMember x) xs
     | .lit (.str []) => pure a
     | .lit (.str _) => raise .unmodelled
     | _ => pure a
